@@ -127,8 +127,17 @@ func Run(r *engine.RNG, cfg Config, p Params) *Session {
 				s.ACK(0)
 			}
 		default:
+			if r.Chance(25) {
+				s.MisuseProbe()
+				s.mark("misuse-probe")
+			}
 			if r.Chance(p.Reopen) {
-				s.Close()
+				if r.Chance(30) {
+					s.ClosedProbe()
+					s.mark("closed-probe")
+				} else {
+					s.Close()
+				}
 				s.mark("reopen")
 				if s.Open() != "ok" {
 					s.fail("C06", "reopen", "reopening the queue failed")
@@ -211,4 +220,87 @@ func (s *Session) RNext0() {
 			}
 		}
 	}
+}
+
+// MisuseProbe checks the documented errors of the queue API (C15): ACK of more
+// than is pending, reading without a session, and every call on a closed queue.
+func (s *Session) MisuseProbe() {
+	expect := func(what, got string, want ...string) {
+		for _, w := range want {
+			if got == w {
+				return
+			}
+		}
+		s.fail("C15", "pq-misuse", "%s: result %s, documented: %v", what, got, want)
+	}
+	if s.Q == nil {
+		return
+	}
+	pending := s.Flushed - s.Acked
+	before := s.Flushed
+	res := s.guard("ack-too-many", func() error { return s.Q.ACK(uint(pending + 1 + len(s.Sizes))) })
+	if pending == 0 && s.Acked == 0 && s.Flushed == 0 {
+		expect("ACK on an empty queue", res, "err:ackempty", "err:acktoomany")
+	} else {
+		expect("ACK of more events than pending", res, "err:acktoomany", "err:ackempty")
+	}
+	if !s.inRead {
+		expect("Reader.Next without Begin", s.guard("next-nosession", func() error { _, err := s.R.Next(); return err }), "err:inactivetx")
+		expect("Reader.Read without Begin", s.guard("read-nosession", func() error { _, err := s.R.Read(make([]byte, 4)); return err }), "err:inactivetx")
+		expect("Reader.Available without Begin", s.guard("avail-nosession", func() error { _, err := s.R.Available(); return err }), "err:inactivetx")
+	} else {
+		expect("Reader.Begin inside a session", s.guard("begin-twice", func() error { return s.R.Begin() }), "err:activetx")
+	}
+	if s.Flushed != before {
+		s.fail("C15", "pq-misuse-state", "rejected calls changed the queue state")
+	}
+	s.Counters()
+}
+
+// ClosedProbe checks every call on a closed queue.
+func (s *Session) ClosedProbe() {
+	q, w, r := s.Q, s.W, s.R
+	if q == nil {
+		return
+	}
+	if s.inRead {
+		s.Done()
+	}
+	qerr := q.Close()
+	if qerr == nil {
+		s.Flushed = s.Finished
+	} else {
+		s.Sizes = s.Sizes[:s.Flushed]
+		s.Finished = s.Flushed
+	}
+	s.curBytes = 0
+	chk := func(what string, fn func() error, want ...string) {
+		got := s.guard("closed-"+what, fn)
+		for _, x := range want {
+			if got == x {
+				return
+			}
+		}
+		s.fail("C15", "pq-closed", "%s on a closed queue: result %s, documented: %v", what, got, want)
+	}
+	if qerr == nil { // a Close whose final flush failed leaves the (dropped) writer object active
+		chk("Writer.Write", func() error { _, err := w.Write([]byte{1}); return err }, "err:writerclosed")
+		chk("Writer.Next", func() error { return w.Next() }, "err:writerclosed")
+		chk("Writer.Flush", func() error { return w.Flush() }, "err:writerclosed")
+	}
+	chk("Queue.Writer", func() error { _, err := q.Writer(); return err }, "err:queueclosed")
+	chk("Queue.Reader().Begin", func() error { return q.Reader().Begin() }, "err:readerclosed")
+	chk("Reader.Begin", func() error { return r.Begin() }, "err:readerclosed")
+	chk("Reader.Next", func() error { _, err := r.Next(); return err }, "err:readerclosed")
+	chk("Reader.Read", func() error { _, err := r.Read(make([]byte, 2)); return err }, "err:readerclosed")
+	chk("ACK(1)", func() error { return q.ACK(1) }, "err:queueclosed")
+	chk("ACK(0)", func() error { return q.ACK(0) }, "ok")
+	chk("Close again", func() error { return q.Close() }, "ok")
+	// the file is still usable: reopen the queue on it
+	s.guard("close-file", func() error { return s.F.Close() })
+	s.markState()
+	s.Q, s.W, s.R, s.F = nil, nil, nil, nil
+	s.Consumed = s.Acked
+	s.curRead, s.curLeft = -1, 0
+	s.emit("closedprobe")
 }
